@@ -77,9 +77,9 @@ def main(agent, base):
             at = open(a).read()
             bt = open(b).read()
             # the worker's CLAIMS entries: dump via exec
-            ns = {}
+            ns = {"__file__": a}
             exec(at.split("def main")[0], ns)
-            nb = {}
+            nb = {"__file__": b}
             exec(bt.split("def main")[0], nb)
             cur = open(m).read()
             for k, v in ns["CLAIMS"].items():
